@@ -18,6 +18,7 @@ import (
 	"bytes"
 	"crypto/sha256"
 	"encoding/binary"
+	"encoding/json"
 	"fmt"
 	"sort"
 	"strings"
@@ -205,7 +206,15 @@ func (kv *C20KV) Query(req abci.RequestQuery) abci.ResponseQuery {
 	key := append([]byte(nil), req.Data...)
 	v, ok := m[string(key)]
 	if !ok {
-		return abci.ResponseQuery{Code: 0, Log: "absent", Key: key, Height: h}
+		res := abci.ResponseQuery{Code: 0, Log: "absent", Key: key, Height: h}
+		if req.Prove {
+			// absence proof: the application's own operator over the store's complete leaf list, then store-in-app
+			_, _, sproofs := c20AppTree(snap, kv.StoreNames)
+			inner := NewC20AbsenceOp(key, m).ProofOp()
+			outer := merkle.NewValueOp([]byte(store), sproofs[store]).ProofOp()
+			res.ProofOps = &tmcrypto.ProofOps{Ops: []tmcrypto.ProofOp{inner, outer}}
+		}
+		return res
 	}
 	res := abci.ResponseQuery{Code: 0, Log: "exists", Key: key, Value: append([]byte(nil), v...), Height: h}
 	ks := c20SortedKeys(m)
@@ -218,6 +227,78 @@ func (kv *C20KV) Query(req abci.RequestQuery) abci.ResponseQuery {
 		res.ProofOps = &tmcrypto.ProofOps{Ops: []tmcrypto.ProofOp{inner, outer}}
 	}
 	return res
+}
+
+// ---------------------------------------------------------------------------------------------------------------
+// absence operator of the provable application (tendermint itself ships none; applications register their own with
+// light/rpc.Client.RegisterOpDecoder). It carries the complete sorted (key, sha256(value)) list of the store: Run
+// (with no arguments, as ProofRuntime.VerifyAbsence calls it) fails if the key is in the list or the list is not
+// strictly sorted, and otherwise returns the store root computed from the list.
+
+const C20AbsenceOpType = "c20:absent"
+
+type C20AbsenceOp struct {
+	Key    []byte      `json:"key"`
+	Leaves [][2][]byte `json:"leaves"` // (key, sha256(value)) in key order
+}
+
+func NewC20AbsenceOp(key []byte, store map[string][]byte) C20AbsenceOp {
+	op := C20AbsenceOp{Key: append([]byte(nil), key...)}
+	for _, k := range c20SortedKeys(store) {
+		vh := sha256.Sum256(store[k])
+		op.Leaves = append(op.Leaves, [2][]byte{[]byte(k), vh[:]})
+	}
+	return op
+}
+
+func (op C20AbsenceOp) ProofOp() tmcrypto.ProofOp {
+	bz, err := json.Marshal(op)
+	if err != nil {
+		panic(err)
+	}
+	return tmcrypto.ProofOp{Type: C20AbsenceOpType, Key: op.Key, Data: bz}
+}
+
+func C20AbsenceOpDecoder(pop tmcrypto.ProofOp) (merkle.ProofOperator, error) {
+	if pop.Type != C20AbsenceOpType {
+		return nil, fmt.Errorf("unexpected ProofOp.Type %q", pop.Type)
+	}
+	var op C20AbsenceOp
+	if err := json.Unmarshal(pop.Data, &op); err != nil {
+		return nil, err
+	}
+	if !bytes.Equal(op.Key, pop.Key) {
+		return nil, fmt.Errorf("operator key does not match its data")
+	}
+	return op, nil
+}
+
+func (op C20AbsenceOp) GetKey() []byte { return op.Key }
+
+func (op C20AbsenceOp) Run(args [][]byte) ([][]byte, error) {
+	if len(args) != 0 {
+		return nil, fmt.Errorf("absence operator takes no arguments, got %d", len(args))
+	}
+	leaves := make([][]byte, len(op.Leaves))
+	for i, l := range op.Leaves {
+		if bytes.Equal(l[0], op.Key) {
+			return nil, fmt.Errorf("key %q is present", op.Key)
+		}
+		if i > 0 && bytes.Compare(op.Leaves[i-1][0], l[0]) >= 0 {
+			return nil, fmt.Errorf("leaf list is not strictly sorted")
+		}
+		if len(l[1]) != sha256.Size {
+			return nil, fmt.Errorf("bad value hash")
+		}
+		var buf [binary.MaxVarintLen64]byte
+		var out []byte
+		n := binary.PutUvarint(buf[:], uint64(len(l[0])))
+		out = append(append(out, buf[:n]...), l[0]...)
+		n = binary.PutUvarint(buf[:], uint64(len(l[1])))
+		out = append(append(out, buf[:n]...), l[1]...)
+		leaves[i] = out
+	}
+	return [][]byte{merkle.HashFromByteSlices(leaves)}, nil
 }
 
 var _ = bytes.Equal
